@@ -139,7 +139,7 @@ class RefsWorld:
                 continue
             if rng.random() < rr:
                 k = weighted(rng, [('plain_bad', 3), ('link_bad', 4), ('const', 2), ('ro', 1), ('clsset', 1), ('update_bad', 2), ('ctor_bad', 1.5),
-                                   ('reent', 2.5), ('batch_reject', 1.5), ('ev_bad', 1), ('comp_bad', 1.2)])
+                                   ('reent', 2.5), ('batch_reject', 1.5), ('ev_bad', 1)])
                 after_reject = 2
             else:
                 k = weighted(rng, [('src', 8), ('link', 5), ('plain', 2.5), ('update1', 1), ('uctx_open', 1), ('uctx_close', 1.2), ('ctor', 0.6),
@@ -715,8 +715,13 @@ class _Run:
             except Exception as e:      # noqa
                 if restorable and not stale:
                     self.viol('C08.update_ctx', f"leaving the update context of T{ti}.{pn} raised {type(e).__name__}: {str(e)[:120]}")
-                # the reference to restore currently resolves to an invalid value: restoring it is a rejected
-                # assignment, the parameter keeps the value it had inside the context and stays unlinked
+                # the reference to restore currently resolves to an invalid value: it cannot be assigned back (the exit raises),
+                # the parameter keeps the value it had inside the context - but the link itself is restored, the parameter
+                # follows again as soon as its source holds a valid value
+                if oldlink is not None:
+                    self.links[ti][pn] = oldlink
+                    if oldlink['k'] == 'abind':
+                        self.pending.add((ti, pn))
                 return
             if not restorable and not stale:
                 self.viol('C02.accepted', f"leaving the update context of T{ti}.{pn} re-linked {oldlink} although it resolves to an invalid value")
